@@ -287,6 +287,29 @@ Cell("shape/enum-without-tag", "shape", "container", ("tag",),
      kinds=("tagged",), conv_ok=False)
 
 
+def _no_readable_fields(rng, it, r):
+    """every brace variant keeps its braces but has nothing to read: no field at all, or only skipped fields
+    (a derive that decides "unit-like" by counting readable fields must still refuse the enum without a tag)"""
+    braces = [v for v in it.variants if v.fields is not None]
+    if not braces:
+        it.variants[0].fields = []
+        braces = [it.variants[0]]
+    for i, v in enumerate(braces):
+        form = (r + i) % 3
+        keep = [f for f in v.fields if f.ty != "h::W"]
+        if form == 0 or not keep:
+            v.fields = []
+        else:
+            v.fields = keep[:1 + (r % 2)]
+            for f in v.fields:
+                f.lines = [Line([N("skip")])] if form == 1 else [Line([N("skip"), N("default = " + type_by_name(f.ty)[1])])]
+
+
+Cell("shape/enum-without-tag/no-readable-fields", "shape", "container", ("tag",),
+     lambda rng, it, r: ([Atom(None, 'tag = "%s"' % rng.pick(["type", "kind"]))], "single", None),
+     kinds=("tagged",), conv_ok=False, setup=_no_readable_fields)
+
+
 def _unnamed_variant(rng, it, r):
     used = {v.name for v in it.variants}
     nf = [1, rng.rng(2, 3), 0][r % 3]
